@@ -1,10 +1,11 @@
 #!/bin/bash
-# usage: seed_matrix.sh <VERIF_SEED> -> runs every seeded change against the check of its property
-# (scratch worktree per change), prints one line per change.
+# usage: seed_matrix.sh <VERIF_SEED> [<name pattern>] -> runs every seeded change against the first check
+# listed in its meta.json under quick_checks_that_catch_it (normally the check of its own
+# property; scratch worktree per change), prints one line per change.
 sd=${1:-5}
 cd /verif
-for d in seeded/*/; do
-  name=$(basename $d); prop=${name%-*}
+for d in seeded/${2:-*}/; do
+  name=$(basename $d); prop=$(python3 -c "import json;print(json.load(open('$d/meta.json'))['quick_checks_that_catch_it'][0])")
   wt=$(mktemp -d /tmp/mxwt.XXXXXX); rmdir $wt
   git -C /repo worktree add -q --detach $wt HEAD || continue
   if git -C $wt apply /verif/$d/patch.diff 2>/dev/null; then
